@@ -202,6 +202,17 @@ pub fn match_all(
                     instr.encoding.size.unwrap(),
                     if instr.encoding_statically_known { " [static]" } else { "" });
             }
+
+            #[cfg(hlorenzi_customasm_verif)]
+            crate::verif::emit("match", vec![
+                ("item", crate::verif::V::I(instr.item_ref.0 as i128)),
+                ("file", crate::verif::V::I(ast_instr.span.file_handle as i128)),
+                ("at", crate::verif::V::I(ast_instr.span.location().map_or(-1, |l| l.0 as i128))),
+                ("src", crate::verif::V::S(ast_instr.src.clone())),
+                ("guess", crate::verif::V::I(instr.encoding.size.unwrap() as i128)),
+                ("static", crate::verif::V::B(instr.encoding_statically_known)),
+                ("cands", crate::verif::V::L(instr.matches.iter().map(verif_match).collect())),
+            ]);
         }
 
         else if let asm::AstAny::Symbol(node) = any_node
@@ -212,6 +223,31 @@ pub fn match_all(
     }
 
     report.stop_at_errors()
+}
+
+
+#[cfg(hlorenzi_customasm_verif)]
+fn verif_match(mtch: &InstructionMatch) -> crate::verif::V
+{
+    use crate::verif::V;
+
+    V::O(vec![
+        ("block", V::I(mtch.ruledef_ref.0 as i128)),
+        ("rule", V::I(mtch.rule_ref.0 as i128)),
+        ("lits", V::I(mtch.exact_part_count as i128)),
+        ("ssize", V::I(mtch.encoding_size as i128)),
+        ("static", V::B(mtch.encoding_statically_known)),
+        ("args", V::L(mtch.args.iter().map(|arg| V::O(vec![
+            ("text", V::S(arg.excerpt.clone())),
+            ("at", V::I(arg.span.location().map_or(-1, |l| l.0 as i128))),
+            ("end", V::I(arg.span.location().map_or(-1, |l| l.1 as i128))),
+            ("nested", match arg.kind
+            {
+                InstructionArgumentKind::Expr(_) => V::Null,
+                InstructionArgumentKind::Nested(ref m) => verif_match(m),
+            }),
+        ])).collect())),
+    ])
 }
 
 
